@@ -99,8 +99,10 @@ impl<T, D: Data<Elem = f64>> Fit<ArrayBase<D, Ix2>, T, ReductionError> for PcaPa
         // explained variance is the spectral distribution of the eigenvalues
         let (_, sigma, mut v_t) = result.values_vectors();
 
-        // cut singular values to avoid numerical problems
-        let sigma = sigma.mapv(|x| x.max(1e-8));
+        // cut singular values to avoid numerical problems; the cut is relative to the largest one, the
+        // spectrum scales with the unit of the data
+        let floor = sigma.iter().copied().fold(0., f64::max) * f64::EPSILON;
+        let sigma = sigma.mapv(|x| x.max(floor));
 
         // scale the embedding with the square root of the dimensionality and eigenvalue such that
         // the product of the resulting matrix gives the unit covariance.
